@@ -41,6 +41,8 @@ POOL_R6 = POOL_COMMON + ["\u03c0ass", "\u2168", "x\u00a0y", P130_MB]  # U+2168 p
 # every password tried against every default-dimension document (expected result computed by the model)
 CANDIDATES = POOL_COMMON + [
     "\u20acuro", "\u03c0ass", "IX", "I\u00adX", "\u2168", "\u0007", "\u0627\u0031", "\u00ad", "x y", "x\u00a0y",
+    # characters Python calls white space but SASLprep prohibits (RFC 4013 2.3: C.2.1, C.2.2) instead of mapping to SPACE: not "x y"
+    "x\ty", "x\u2028y", "x\u0085y", "x\x1fy",
     "user ", "User", "use", P33_ALT, P33[:32], P130_TAIL, P130_127, P130[:127], P130_MB, "\u00aa", "a",
 ]
 # the few tried against the non-default documents as well
@@ -51,6 +53,8 @@ CFGS_QUICK = [
     (4, 4, 128, "V2", True), (4, 4, 128, "AESV2", True), (4, 4, 128, "Identity", True), (5, 5, 256, "AESV3", True), (5, 6, 256, "AESV3", True),
     # V4 without the optional top-level /Length (its default is 40): the key length comes from the crypt filter (16 bytes)
     (4, 4, 128, "V2", False), (4, 4, 128, "AESV2", False),
+    # V4 with a stale top-level /Length (40, 64): it does not apply to V4, the key stays 16 bytes
+    (4, 4, 128, "V2", 40), (4, 4, 128, "AESV2", 64),
 ]
 CFGS_EXTRA = [(2, 3, 64, "RC4", True), (2, 3, 80, "RC4", True), (2, 3, 96, "RC4", True), (2, 3, 104, "RC4", True), (2, 3, 120, "RC4", True)]
 
@@ -59,7 +63,7 @@ WRONG_PW = "nope"
 P_POOL = [-44, -4, -3904, -3900, -3896, -3888, -1]
 ID_POOL = [bytes(range(0x30, 0x40)), None]
 
-BOUNDS = {"quick": {"dev": 1, "cfgs": "12 x EncryptMetadata", "pairs": "quick", "two-document histories": "6x6 cipher pairs x 66 histories (depth 4 over open/wrong-password/read events)"},
+BOUNDS = {"quick": {"dev": 1, "cfgs": "14 x EncryptMetadata", "pairs": "quick", "two-document histories": "6x6 cipher pairs x 66 histories (depth 4 over open/wrong-password/read events)"},
           "thorough": {"dev": 2, "cfgs": "17 x EncryptMetadata", "pairs": "all", "two-document histories": "8x8 cipher pairs x 560 histories (depth 5; depth 4 with extract_text events)"}}
 
 META = {
